@@ -6,6 +6,7 @@ from analysis import chessref as R
 from analysis.cfg import cfg_of
 from analysis.effects import subterms, strip_casts
 
+THOROUGH_CONFIGS = ['release', 'nobmi2', 'engine-alone']
 LEVEL = "other"
 DECIDED = ("R2 every successful return of parse_fen and BoardBuilder::build is dominated by the success edge of Board::validate, and Board's fields are private; "
            "R3 validate succeeds only on paths that passed every stated check: exactly one king per side (has_kings is count==2 and one of each colour), at most 16 pieces for "
@@ -258,7 +259,10 @@ def r6(ctx):
     calls = [t["f"].get("fn") for _, t in P.calls(key) if t["f"].get("k") == "fnref"]
     ws = [c for c in calls if c.startswith("chess_")]
     ctx.ob("FromStr for Board", ws == [MG + "fen::parse_fen"], f"Board::from_str calls {ws}; expected parse_fen only", site=P.body(key).get("def_span"), sample=ws)
-    # wasm entry point
+    # wasm entry point (absent from single-package configurations)
+    if "chess_wasm" not in P.crates:
+        ctx.note("chess_wasm not part of this configuration")
+        return
     hits = [k for k in P.fns if k.startswith("chess_wasm::") and "new_game_from_fen" in k and "::promoted" not in k and "{closure" not in k]
     ok = False
     for k in hits:
